@@ -2,6 +2,7 @@
 //! line per case ("<channel> key=value ...") for the model driver.
 mod art;
 mod cli;
+mod dfs;
 mod flags;
 mod probe;
 mod util;
@@ -52,6 +53,7 @@ fn main() {
     match args[1].as_str() {
         "art" => art::run(seed, count, maxn, &mode, &mut out),
         "flags" => flags::run(seed, count, &mut out),
+        "dfs" => dfs::run(seed, count, maxn, &mode, &mut out),
         "probe" => probe::run(&mode),
         "cli" => cli::run(seed, count, maxn, &mut out),
         "visit" => visit::run(seed, count, maxn, &mode, &mut out),
